@@ -172,34 +172,10 @@ Definition is_complete (c : rest_case) : bool :=
              | Some _ => false
              end) (candidates c).
 
-(* what the handler's own Flush calls had passed to the client when it had executed
-   [pre]: nothing, unless it flushed through a Flusher-capable writer; then status and
-   headers of its first Flush and the chunks written before its last Flush *)
-Fixpoint upto_last_flush (acts : list act) : list act :=
-  match acts with
-  | [] => []
-  | a :: r => if has_flush (a :: r) then a :: upto_last_flush r else []
-  end.
-
-Definition spec_committed (fl : bool) (h0 : hdrs) (pre : list act) : view :=
-  if fl && has_flush pre then
-    let v := spec_view fl h0 pre in
-    (fst (fst v), snd (fst v), spec_body (upto_last_flush pre))
-  else ([], None, []).
-
 Fixpoint prefixes {A} (l : list A) : list (list A) :=
   match l with
   | [] => [[]]
   | x :: r => [] :: map (cons x) (prefixes r)
-  end.
-
-(* "the timeout result": 503 / 499 by the kind of the Done event, the writer's own
-   headers, the fixed body, no 1xx response, nothing after it — on top of what the
-   handler had flushed itself before (nothing, for scripts without Flush) *)
-Definition timeout_view (fl : bool) (h0 : hdrs) (k : kind) (pre : list act) : view :=
-  match spec_committed fl h0 pre with
-  | (infos, Some x, body) => (infos, Some x, body ++ reason)
-  | (infos, None, body) => (infos, Some (timeout_code k, h0), body ++ reason)
   end.
 
 Definition is_timeout (c : rest_case) : bool :=
@@ -362,6 +338,9 @@ Definition client_prop_ok (c : client_case) : bool :=
 Record seq_req := mkSR
   { sr_fl : bool; sr_h0 : hdrs; sr_script : list act; sr_dmode : option kind;
     sr_hdrs : list (bstr * bstr);      (* request headers *)
+    sr_amb : bool;                     (* a websocket / event-stream request by a reasonable reading, but not
+                                          by the literal test of the code ("Upgrade: Websocket",
+                                          "Accept: text/event-stream, text/html"): exempting it or not are both fine *)
     sr_parent : option Z;
     sr_group : nat;                    (* server cases: the route group *)
     (* observed, per request *)
@@ -420,10 +399,19 @@ Definition gseq_agrees (conf : seq_req -> Z * list act) (reqs : list seq_req)
   | None => false
   end.
 
-(* every request, seen through its own events only, is judged like a single request *)
+(* every request, seen through its own events only, is judged like a single request;
+   an ambiguous request (see sr_amb) is judged as what the implementation took it for *)
+Definition judged_as (r : seq_req) (c : rest_case) : rest_case :=
+  if sr_amb r then
+    mkRest (rc_fl c) (rc_h0 c) (rc_script c) (rc_dur c) (if sr_wrapped r then RqPlain else RqWebsocket)
+           (rc_parent c) (rc_dmode c) (rc_wrapped c) (rc_sched c) (rc_alts c) (rc_hobs c) (rc_sout c)
+           (rc_status c) (rc_snap c) (rc_live c) (rc_body c) (rc_infos c) (rc_flushes c) (rc_extra c)
+           (rc_late c) (rc_foreign c) (rc_dl c) (rc_t0 c) (rc_t1 c) (rc_retatd c)
+  else c.
+
 Definition gseq_prop_ok (conf : seq_req -> Z * list act) (reqs : list seq_req)
            (sched : list (nat * ev)) (hobs : list (nat * ares)) : bool :=
-  forall_idx (fun i r => rest_prop_ok (seq_as_rest (fst (conf r)) (snd (conf r)) sched hobs i r)) O reqs.
+  forall_idx (fun i r => rest_prop_ok (judged_as r (seq_as_rest (fst (conf r)) (snd (conf r)) sched hobs i r))) O reqs.
 
 Record seq_case := mkSeq
   { sq_dur : Z;
